@@ -11,9 +11,11 @@ import (
 	"strings"
 	"sync"
 	"testing"
+	"time"
 
 	"github.com/beevik/etree"
 	saml2 "github.com/russellhaering/gosaml2"
+	dsig "github.com/russellhaering/goxmldsig"
 	"pgregory.net/rapid"
 
 	h "verif/harness"
@@ -75,6 +77,30 @@ func c17Pool() []string {
 				c17Inputs = append(c17Inputs, enc)
 			}
 		}
+		// messages that are genuine under OTHER configurations the re-configuration check switches to
+		for _, alt := range []struct {
+			at  string
+			win string
+		}{{"2000-06-01T00:00:00Z", "past"}, {"2030-03-01T12:00:00Z", "narrow"}} {
+			asp := sp
+			at, _ := time.Parse(time.RFC3339, alt.at)
+			asp.NowUnixNano = at.UnixNano()
+			for _, mode := range []string{"response", "assertions"} {
+				g := gridGenuine(asp, 1, mode)
+				sig := h.DefaultSign("T1")
+				sig.Signer, sig.Embed = h.CertRef{Key: "T1", Window: alt.win}, &h.CertRef{Key: "T1", Window: alt.win}
+				if mode == "response" {
+					g.RespSig = sig
+				} else {
+					g.AsrtSig = []*h.SignSpec{sig}
+					g.Enc = []*h.EncSpec{{DataAlg: h.DataAlgs[3], Transport: h.Transports[0], Digest: "-", To: h.CertRef{Key: "E1", Window: alt.win}, Key: make([]byte, 16), IV: make([]byte, 16)}}
+				}
+				add(g)
+			}
+		}
+		g2 := gridGenuine(sp, 1, "assertions")
+		g2.Enc = []*h.EncSpec{{DataAlg: h.DataAlgs[1], Transport: h.Transports[1], Digest: "-", To: h.CertRef{Key: "E2", Window: "wide"}, Key: make([]byte, 24), IV: make([]byte, 12)}}
+		add(g2)
 		c17Inputs = append(c17Inputs, "", "!!!", base64.StdEncoding.EncodeToString([]byte("<x/>")), base64.StdEncoding.EncodeToString([]byte("<samlp:Response xmlns:samlp=\"urn:oasis:names:tc:SAML:2.0:protocol\"/>")))
 	})
 	return c17Inputs
@@ -607,3 +633,215 @@ func TestC17_GridManyBuilds(t *testing.T) {
 		return o
 	})
 }
+
+// ---- Part C: re-configuration differential -----------------------------------------------------------
+// One long-lived service provider whose exported configuration is re-assigned between calls (clock, IdP
+// certificate store, SP key store field / setter, boolean options, URLs; signing keys only before the first
+// signature, because the signing context is created lazily and kept by design). After every step the
+// operation must return exactly what it returns on a FRESH service provider carrying the current
+// configuration: nothing derived from an earlier configuration may survive a re-assignment.
+
+type C17Step struct {
+	Reconf string `json:"reconf,omitempty"` // field to re-assign ("" = none)
+	V      int    `json:"v"`
+	Op     C17Op  `json:"op"`
+}
+
+type C17Reconf struct {
+	Steps []C17Step `json:"steps"`
+}
+
+type spState struct {
+	cfg       h.SPConfig
+	encField  int // index into encFieldChoices
+	encSetter int // index into keySetterChoices
+	sigField  int
+	sigSetter int
+}
+
+var (
+	reconfClocks = []string{"2030-03-01T12:00:00Z", "2000-06-01T00:00:00Z", "2030-03-01T00:00:00Z", "2030-03-05T00:00:00Z", "2035-01-01T00:00:00.5Z", "2030-03-02T00:00:00.000000001Z"}
+	reconfStores = [][]h.CertRef{{{Key: "T1", Window: "wide"}}, {{Key: "T2", Window: "wide"}}, {{Key: "T1", Window: "wide"}, {Key: "T2", Window: "wide"}}, {{Key: "T1", Window: "past"}}, {{Key: "T1", Window: "narrow"}, {Key: "T1", Window: "wide"}}, {}}
+	// deprecated-field choices: kind + certificate
+	encFieldChoices = []struct {
+		kind string
+		c    h.CertRef
+	}{{"none", h.CertRef{}}, {"tls", h.CertRef{Key: "E1", Window: "wide"}}, {"custom", h.CertRef{Key: "E1", Window: "wide"}}, {"tls", h.CertRef{Key: "E1", Window: "past"}}, {"custom", h.CertRef{Key: "E1", Window: "narrow"}}, {"tls", h.CertRef{Key: "E2", Window: "wide"}}, {"custom", h.CertRef{Key: "E2", Window: "narrow"}}}
+	encSetterChoices = []*h.CertRef{nil, {Key: "E1", Window: "wide"}, {Key: "E2", Window: "wide"}, {Key: "E1", Window: "narrow"}}
+	sigFieldChoices  = []*h.CertRef{nil, {Key: "S1", Window: "wide"}, {Key: "S2", Window: "wide"}}
+	sigSetterChoices = []*h.CertRef{nil, {Key: "S2", Window: "wide"}, {Key: "S1", Window: "wide"}}
+	reconfFields     = []string{"clock", "clock", "store", "store", "encField", "encField", "encSetter", "validateEnc", "skip", "allowMissing", "acs", "issuer", "audience", "slo", "maxSize", "sigField", "sigSetter"}
+)
+
+func fieldStore(kind string, c h.CertRef) dsig.X509KeyStore {
+	switch kind {
+	case "tls":
+		return h.TLSStore(c)
+	case "custom":
+		return h.NewCustomStore(c)
+	}
+	return nil
+}
+
+// apply re-assigns one field on the tracked state and, if sp != nil, on the live instance.
+func (st *spState) apply(field string, v int, sp *saml2.SAMLServiceProvider) {
+	switch field {
+	case "clock":
+		at, _ := time.Parse(time.RFC3339Nano, reconfClocks[v%len(reconfClocks)])
+		st.cfg.NowUnixNano = at.UnixNano()
+		if sp != nil {
+			sp.Clock = dsig.NewFakeClockAt(st.cfg.Now())
+		}
+	case "store":
+		st.cfg.Store = reconfStores[v%len(reconfStores)]
+		if sp != nil {
+			sp.IDPCertificateStore = h.Store(st.cfg.Store)
+		}
+	case "encField":
+		st.encField = v % len(encFieldChoices)
+		if sp != nil {
+			ch := encFieldChoices[st.encField]
+			if ks := fieldStore(ch.kind, ch.c); ks != nil {
+				sp.SPKeyStore = ks
+			} else {
+				sp.SPKeyStore = nil
+			}
+		}
+	case "encSetter":
+		st.encSetter = v % len(encSetterChoices)
+		if sp != nil {
+			if c := encSetterChoices[st.encSetter]; c != nil {
+				sp.SetSPKeyStore(&saml2.KeyStore{Signer: h.K(c.Key).Signer, Cert: c.DER()})
+			} else {
+				sp.SetSPKeyStore(nil)
+			}
+		}
+	case "sigField":
+		st.sigField = v % len(sigFieldChoices)
+		if sp != nil {
+			if c := sigFieldChoices[st.sigField]; c != nil {
+				sp.SPSigningKeyStore = h.TLSStore(*c)
+			} else {
+				sp.SPSigningKeyStore = nil
+			}
+		}
+	case "sigSetter":
+		st.sigSetter = v % len(sigSetterChoices)
+		if sp != nil {
+			if c := sigSetterChoices[st.sigSetter]; c != nil {
+				sp.SetSPSigningKeyStore(&saml2.KeyStore{Signer: h.K(c.Key).Signer, Cert: c.DER()})
+			} else {
+				sp.SetSPSigningKeyStore(nil)
+			}
+		}
+	case "validateEnc":
+		st.cfg.ValidateEncCert = v%2 == 0
+		if sp != nil {
+			sp.ValidateEncryptionCert = st.cfg.ValidateEncCert
+		}
+	case "skip":
+		st.cfg.Skip = v%2 == 0
+		if sp != nil {
+			sp.SkipSignatureValidation = st.cfg.Skip
+		}
+	case "allowMissing":
+		st.cfg.AllowMissing = v%2 == 0
+		if sp != nil {
+			sp.AllowMissingAttributes = st.cfg.AllowMissing
+		}
+	case "acs":
+		st.cfg.ACS = []string{"https://sp.example.com/saml/acs", "https://other.example.com/acs"}[v%2]
+		if sp != nil {
+			sp.AssertionConsumerServiceURL = st.cfg.ACS
+		}
+	case "issuer":
+		st.cfg.IdPIssuer = []string{"https://idp.example.com/metadata", "", "https://other-idp.example.com"}[v%3]
+		if sp != nil {
+			sp.IdentityProviderIssuer = st.cfg.IdPIssuer
+		}
+	case "audience":
+		st.cfg.Audience = []string{"https://sp.example.com/metadata", "", "urn:other"}[v%3]
+		if sp != nil {
+			sp.AudienceURI = st.cfg.Audience
+		}
+	case "slo":
+		st.cfg.SLO = []string{"https://sp.example.com/saml/slo", "", "https://other.example.com/slo"}[v%3]
+		if sp != nil {
+			sp.ServiceProviderSLOURL = st.cfg.SLO
+		}
+	case "maxSize":
+		st.cfg.MaxSize = []int64{0, 100, 1 << 20}[v%3]
+		if sp != nil {
+			sp.MaximumDecompressedBodySize = st.cfg.MaxSize
+		}
+	}
+}
+
+// fresh builds a new service provider from the tracked state.
+func (st *spState) fresh() *saml2.SAMLServiceProvider {
+	cfg := st.cfg
+	cfg.Enc, cfg.Sig = h.KeyCfg{}, h.KeyCfg{}
+	sp := cfg.Build()
+	tmp := *st
+	tmp.apply("encField", st.encField, sp)
+	tmp.apply("encSetter", st.encSetter, sp)
+	tmp.apply("sigField", st.sigField, sp)
+	tmp.apply("sigSetter", st.sigSetter, sp)
+	return sp
+}
+
+var signingOps = map[string]bool{"authn-doc": true, "authn-str": true, "logout-req": true, "logout-resp": true, "auth-url": true, "auth-url-redirect": true, "logout-url": true, "auth-post": true, "sign-el": true}
+var keyFields = map[string]bool{"encField": true, "encSetter": true, "sigField": true, "sigSetter": true}
+
+func genC17Reconf(t *rapid.T) C17Reconf {
+	var c C17Reconf
+	validationOnly := rapid.Bool().Draw(t, "validationOnly")
+	n := rapid.IntRange(2, 10).Draw(t, "steps")
+	for i := 0; i < n; i++ {
+		s := C17Step{}
+		if rapid.IntRange(0, 3).Draw(t, "doReconf") != 0 {
+			s.Reconf = rapid.SampledFrom(reconfFields).Draw(t, "field")
+			s.V = rapid.IntRange(0, 11).Draw(t, "value")
+		}
+		kinds := c17OpKinds
+		if validationOnly {
+			kinds = []string{"validate", "validate", "retrieve", "retrieve", "logout-validate-req", "logout-validate-resp", "decode-base", "metadata", "metadata-slo", "signing-cert"}
+		}
+		s.Op = C17Op{Kind: rapid.SampledFrom(kinds).Draw(t, "op"), Input: rapid.IntRange(0, 63).Draw(t, "input"), Arg: rapid.SampledFrom([]string{"", "a", "x&y"}).Draw(t, "arg"), Mut: rapid.Bool().Draw(t, "mutate")}
+		c.Steps = append(c.Steps, s)
+	}
+	return c
+}
+
+func checkC17Reconf(c C17Reconf) h.Outcome {
+	o := h.Outcome{NonTrivial: true}
+	st := &spState{cfg: c17SP(0), encField: 1}
+	st.cfg.Enc, st.cfg.Sig = h.KeyCfg{}, h.KeyCfg{}
+	st.cfg.SignRequests = true
+	shared := st.fresh()
+	signed := false
+	for i, s := range c.Steps {
+		if s.Reconf != "" && !(signed && keyFields[s.Reconf]) {
+			st.apply(s.Reconf, s.V, shared)
+			o.Classes = append(o.Classes, "reconf:"+s.Reconf)
+		}
+		if st.encField == 0 && st.encSetter == 0 && (signingOps[s.Op.Kind] || s.Op.Kind == "metadata" || s.Op.Kind == "metadata-slo" || s.Op.Kind == "signing-cert") && st.sigField == 0 && st.sigSetter == 0 {
+			continue // no key at all: signing without a key is outside the domain
+		}
+		got := s.Op.run(shared)
+		want := s.Op.run(st.fresh())
+		o.Classes = append(o.Classes, "op:"+s.Op.Kind)
+		if got != want {
+			o.Violation = h.V("stale-after-reconfiguration/"+s.Op.Kind, "step %d (%s after re-assigning %q): the long-lived instance returns something else than a fresh instance with the same configuration\n long-lived: %.500s\n      fresh: %.500s\n steps: %+v", i+1, s.Op.Kind, s.Reconf, got, want, c.Steps[:i+1])
+			return o
+		}
+		if signingOps[s.Op.Kind] {
+			signed = true
+		}
+	}
+	o.Classes = dedup(o.Classes)
+	return o
+}
+
+func TestC17_PReconf(t *testing.T)      { h.RunProp(t, "C17.reconf", genC17Reconf, checkC17Reconf) }
+func TestC17_ReplayReconf(t *testing.T) { h.RunReplay(t, "C17.reconf", checkC17Reconf) }
